@@ -174,7 +174,9 @@ PLANS["C08"] = {
         T("floats", "floats", (15, 300), ["InvC08"]),
         EDG("edges", ["InvC08"], ops=["Derived"]),
         # every single-leaf criterion on the indexed field x every sort x windows with a skip, on content-rich states
-        EDG("edges-single", ["InvC08"], ops=["Derived"], rich_states=150, states=(12, 100), reads=(0, 0), seed_off=13, event_re=SINGLE_SKIP_RE),
+        # ... and on the states where x is absent from one document and nil in another, under an index on x
+        EDG("edges-single-nil", ["InvC08"], ops=["Derived"], state_pred="nil_corner", states=(8, 0), reads=(0, 0), seed_off=15, event_re=SINGLE_SKIP_RE),
+        EDG("edges-single", ["InvC08"], ops=["Derived"], rich_states=150, states=(6, 100), reads=(0, 0), seed_off=13, event_re=SINGLE_SKIP_RE),
     ],
 }
 
